@@ -102,6 +102,16 @@ def history_scenarios(bases=None):
             yield {"kind": "config", "base": bi, "config": dict(base), "history": {"kind": "rerun_new_weather", "first_word": first}}
 
 
+def edited_object_scenarios(bases=None):
+    """The user's IrrigationManagement / FieldMngt object initialised by a first model, then edited through a public attribute and given
+    to a second model over the same period (trying several efficiencies / bund heights in a loop): the second run is the monitored one
+    and must follow the EDITED setting."""
+    bases = bases or A.WATER_BASES
+    for bi, first, edit in ((2, {"field": "bunds200"}, None), (3, {"irr": "const40e90"}, None), (8, {"irr": "sched_e90"}, None)):
+        if bi < len(bases):
+            yield {"kind": "config", "base": bi, "config": dict(bases[bi]), "history": {"kind": "edited_objects", "first": first}}
+
+
 def irregular_record_scenarios(bases=None):
     """The user's weather record is longer than the simulation and NOT one row per day before the window (a missing month, a
     duplicated day, rows dropped without re-indexing): the simulated days must still get the record carrying their date."""
@@ -118,6 +128,39 @@ def run_with(scn, monitor_cls, pid):
         spec = copy.deepcopy(spec)
         spec["weather"].update(scn["weather_extra"])
     model = None
+    entities = None
+    if scn.get("history") and scn["history"]["kind"] == "edited_objects":
+        from ..driver import watchdog
+        first = copy.deepcopy(scn["config"])
+        first.update(scn["history"]["first"])
+        spec1 = A.to_spec(first)
+        try:
+            with watchdog(90):
+                ent1 = S.make_entities(spec1)
+                m1 = S.make_model(spec1, ent1)
+                m1._initialize()
+                entities = S.make_entities(spec)
+                for key in ("irrigation_management", "field_management"):
+                    old, new = ent1.get(key), entities.get(key)
+                    if old is not None and new is not None and type(old) is type(new):
+                        # the user's edit: every public attribute of the first object is overwritten with the new setting
+                        for k, v in vars(new).items():
+                            if not k.startswith("_"):
+                                setattr(old, k, v)
+                        entities[key] = old
+        except BaseException as e:  # noqa: BLE001
+            if isinstance(e, (KeyboardInterrupt, SystemExit)):
+                raise
+            entities = None
+        ctx = execute(spec, [monitor_cls()], pid=pid, entities=entities)
+        if entities is not None:
+            ctx.hit("edited_object_used_by_an_earlier_model")
+        facts = scenario_facts(spec, scn)
+        for v in ctx.violations:
+            for k, val in facts.items():
+                v["facts"].setdefault(k, val)
+            v["facts"]["sig"] = [v["clause"]]
+        return result_from_ctx(ctx)
     if scn.get("history"):
         from ..driver import watchdog
         first = copy.deepcopy(scn["config"])
@@ -159,6 +202,7 @@ def water_scenarios(tier, bases=None, menus=None, full=True):
     bases = bases or A.WATER_BASES
     menus = menus or A.WATER_MENUS
     yield from history_scenarios(bases)
+    yield from edited_object_scenarios(bases)
     yield from irregular_record_scenarios(bases)
     if tier == "quick":
         yield from config_scenarios(bases, menus, 1)
